@@ -31,6 +31,7 @@ def make_tree(base):
     w("root/src/inc/h.h", "int from_inc;\n")
     w("root/src/other/h.h", "int from_other;\n")
     w("root/alt/inc/h.h", "int from_alt;\n")
+    w("root/alt/f.c", '#include <h.h>\nint f;\n')      # a second file that two directories spell "f.c"
     w("root/src/sub/f.o", "\x7fELF")
     w("root/src/sub/unused.c", "int unused;\n")
     return root
@@ -78,11 +79,17 @@ def good_entries(base, root):
         f = os.path.relpath(os.path.join(root, "src/sub/f.c"), da)
         out.append({"name": dn, "entry": {"file": f, "directory": d, "arguments": ["/usr/bin/gcc", "-c", "-I", "inc", f]},
                     "exp_file": os.path.join(root, "src/sub/f.c"), "exp_inc": [os.path.normpath(idir)], "cwd": da})
+    # the same relative spelling "f.c" from two different directories names two different files
+    out.append({"name": "same-rel-file-from-sub", "entry": {"file": "f.c", "directory": os.path.join(root, "src/sub"), "arguments": ["/usr/bin/gcc", "-c", "-I", "../inc", "f.c"]},
+                "exp_file": os.path.join(root, "src/sub/f.c"), "exp_inc": [os.path.join(root, "src/inc")], "cwd": os.path.join(root, "src/sub")})
+    out.append({"name": "same-rel-file-from-alt", "entry": {"file": "f.c", "directory": "alt", "arguments": ["/usr/bin/gcc", "-c", "-I", "inc", "f.c"]},
+                "exp_file": os.path.join(root, "alt/f.c"), "exp_inc": [os.path.join(root, "alt/inc")], "cwd": os.path.join(root, "alt")})
     return out
 
 
 def skipped_entries(root):
     return [
+        {"name": "same-rel-file-missing", "entry": {"file": "f.c", "directory": os.path.join(root, "build"), "arguments": ["/usr/bin/gcc", "-c", "f.c"]}, "skip": True},
         {"name": "missing-file", "entry": {"file": "src/sub/missing.c", "arguments": ["/usr/bin/gcc", "-c", "src/sub/missing.c"]}, "skip": True},
         {"name": "object-file", "entry": {"file": "src/sub/f.o", "command": "/usr/bin/gcc src/sub/f.o -o f"}, "skip": True},
         {"name": "empty-command", "entry": {"file": "src/sub/f.c", "command": ""}, "skip": True},
@@ -151,8 +158,9 @@ def judge(base, root, entries, with_attr=True):
                 if (a.get(hdr, 0) > 0) != (hdr in want):
                     bad.append(("attribution", sorted(want), a))
                     break
-            if a.get("src/sub/f.c", 0) != 2 or a.get("src/sub/unused.c", 0) != 0:
-                bad.append(("attribution", "f.c fully used, unused.c not used", a))
+            compiled = {os.path.relpath(e["exp_file"], root) for e in good}
+            if any(a.get(f, 0) != (2 if f in compiled else 0) for f in ("src/sub/f.c", "alt/f.c")) or a.get("src/sub/unused.c", 0) != 0:
+                bad.append(("attribution", {"fully used": sorted(compiled), "not used": ["src/sub/unused.c"] + sorted({"src/sub/f.c", "alt/f.c"} - compiled)}, a))
     return bad
 
 
@@ -228,7 +236,7 @@ def _relx(x, base):
     return json.loads(json.dumps(x, default=str).replace(base, "$BASE"))
 
 
-REPRESENTATIVE = ["same-rel-I-from-src", "same-rel-I-from-alt", "absent/rel/rel-separate", "abs-root/abs/abs", "abs-build-inside/rel/rel-attached", "abs-build-outside/abs/rel-other",
+REPRESENTATIVE = ["same-rel-file-from-sub", "same-rel-file-from-alt", "same-rel-I-from-src", "same-rel-I-from-alt", "absent/rel/rel-separate", "abs-root/abs/abs", "abs-build-inside/rel/rel-attached", "abs-build-outside/abs/rel-other",
                   "rel-build/rel/rel-separate", "rel-dotdot/redundant/rel-dotdot", "rel-dot/dot-rel/rel-dot", "abs-build-outside/rel/rel-attached"]
 
 
@@ -237,7 +245,7 @@ def run(tier):
     tmp = env.fresh_dir("c13probe")
     ngood = len(good_entries(tmp, make_tree(tmp)))
     jobs = [(list(range(i, min(ngood, i + 12))), "single") for i in range(0, ngood, 12)]
-    npool = len(REPRESENTATIVE) + 5
+    npool = len(REPRESENTATIVE) + 6
     maxlen = 2 if tier == "quick" else 3
     seqs = [s for k in range(1, maxlen + 1) for s in itertools.product(range(npool), repeat=k)]
     if tier == "quick":   # seed-selected extension: all triples that start with a seed-chosen pool element
@@ -252,7 +260,7 @@ def run(tier):
     rep.coverage.update({
         "evaluations": sum(r[0] for r in res), "distinct_nontrivial": ngood + len(seqs),
         "rule": "all %d single entries (7 directory spellings x 4 file spellings x 6 -I spellings), and all sequences of <=%d entries over %d representative "
-                "entries + 5 skipped kinds; distinct = distinct databases" % (ngood, maxlen, len(REPRESENTATIVE)),
+                "entries + 6 skipped kinds; distinct = distinct databases" % (ngood, maxlen, len(REPRESENTATIVE)),
         "failing_cases": sum(r[1] for r in res), "single_entries": ngood, "sequences": len(seqs),
         "oracle_gcc": {"available": bool(GCC), "distinct_commands_confirmed": gchk, "disagreements": gdis[:5]},
         "samples": [{"entries": list(REPRESENTATIVE[:2]) + ["missing-file"]}],
